@@ -500,8 +500,11 @@ namespace occa {
       case primitiveType::uint32_ : return primitive(a.to<uint32_t>() == b.to<uint32_t>());
       case primitiveType::int64_  : return primitive(a.to<int64_t>()  == b.to<int64_t>());
       case primitiveType::uint64_ : return primitive(a.to<uint64_t>() == b.to<uint64_t>());
-      case primitiveType::float_  : return primitive(areBitwiseEqual(a.value.float_, b.value.float_));
-      case primitiveType::double_ : return primitive(areBitwiseEqual(a.value.double_, b.value.double_));
+#pragma GCC diagnostic push
+#pragma GCC diagnostic ignored "-Wfloat-equal"
+      case primitiveType::float_  : return primitive(a.to<float>()    == b.to<float>());
+      case primitiveType::double_ : return primitive(a.to<double>()   == b.to<double>());
+#pragma GCC diagnostic pop
       default: ;
     }
     return primitive();
@@ -526,8 +529,11 @@ namespace occa {
       case primitiveType::uint32_ : return primitive(a.to<uint32_t>() != b.to<uint32_t>());
       case primitiveType::int64_  : return primitive(a.to<int64_t>()  != b.to<int64_t>());
       case primitiveType::uint64_ : return primitive(a.to<uint64_t>() != b.to<uint64_t>());
-      case primitiveType::float_  : return primitive(!areBitwiseEqual(a.value.float_, b.value.float_));
-      case primitiveType::double_ : return primitive(!areBitwiseEqual(a.value.double_, b.value.double_));
+#pragma GCC diagnostic push
+#pragma GCC diagnostic ignored "-Wfloat-equal"
+      case primitiveType::float_  : return primitive(a.to<float>()    != b.to<float>());
+      case primitiveType::double_ : return primitive(a.to<double>()   != b.to<double>());
+#pragma GCC diagnostic pop
       default: ;
     }
     return primitive();
